@@ -1582,7 +1582,7 @@ func TestVerifC13(t *testing.T) {
 
 	// 7 versions x pretty x writing mode x 0..2 parents = 84 cells; the
 	// first cases walk through the cells, later ones draw them.
-	r.Phase("files", r.N(24000, 1000000), func(c *kit.Case) {
+	r.Phase("files", r.N(24000, 400000), func(c *kit.Case) {
 		var cfg c13Config
 		if c.Index < 84*8 {
 			i := c.Index % 84
